@@ -169,7 +169,24 @@ func (g *zgen) jsonObj(depth int) string {
 // snippet emits a few lines that display something.
 func (g *zgen) snippet(lines *[]string, usesJSON *bool) {
 	add := func(s string) { *lines = append(*lines, s) }
-	switch g.t.Draw(9) {
+	switch g.t.Draw(10) {
+	case 9: // values with no JSON form (objects of different classes, methods) inside dictionaries
+		*usesJSON = true
+		ca, cb := "类"+g.v(), "类"+g.v()
+		add(fmt.Sprintf("定义%s：\n\t其名 = “a”\n", ca))
+		add(fmt.Sprintf("定义%s：\n\t其名 = “b”\n", cb))
+		x, y := g.v(), g.v()
+		add(fmt.Sprintf("令%s = （新建%s）", x, ca))
+		add(fmt.Sprintf("令%s = （新建%s）", y, cb))
+		ks := g.keys()
+		var items []string
+		for i, k := range ks {
+			v := []string{x, y, "显示", g.scalar()}[(i+g.t.Draw(4))%4]
+			items = append(items, fmt.Sprintf("“%s” = %s", k, v))
+		}
+		d := g.v()
+		add(fmt.Sprintf("令%s = 【%s】", d, strings.Join(items, "，")))
+		add(fmt.Sprintf("（显示：（生成JSON：%s））", pick(g.t, []string{d, "【“外” = " + d + "，“列” = 【" + d + "】】"})))
 	case 0: // dictionary comparison
 		a, b := g.dictPair(1)
 		x, y := g.v(), g.v()
